@@ -271,7 +271,7 @@ def spec_check(ctx, budget):
     if budget <= 1:
         plan = _plan(ctx, rng, 12, 3, 2, 1)
     else:
-        plan = _plan(ctx, rng, (30 if ctx.thorough else 10) * budget, max(2, budget if ctx.thorough else budget // 2), max(1, budget // 2), 2)
+        plan = _plan(ctx, rng, (30 if ctx.thorough else 10) * budget, max(2, 2 * budget if ctx.thorough else budget // 2), max(1, budget), 2)
     _pairs(ctx, rng, plan, out)
     return out
 
